@@ -27,7 +27,6 @@ COQ_F = {"sum": "FSum", "avg": "FAvg", "count": "FCount", "min": "FMin", "max": 
          "stddev_samp": "FStddevSamp", "var_pop": "FVarPop", "var_samp": "FVarSamp", "first_value": "FFirst", "last_value": "FLast",
          "rank": "FRank", "ratio_to_report": "FRatio"}
 NUMERIC = ("Integer", "Number")
-KNOWN_COUNT_MULTI = "count:dataset-level:multi-measure"
 
 
 # ------------------------------------------------------------------ datasets
@@ -151,21 +150,22 @@ def gen_spec(rng, sh: G.Shape, windowed: bool, ties=False, ord_measures=None):
     return part, order, win
 
 
-def gen_invocation(rng, sh: G.Shape, fun=None, level=None) -> Optional[dict]:
-    f = fun or rng.choice(ALL_FUNS)
+def gen_invocation(rng, sh: G.Shape, fun=None, level=None, type_error=False) -> Optional[dict]:
+    """type_error=True: a numeric-only function over a String/Boolean operand (the engine must answer Semantic 1-1-1-1)"""
+    f = fun or rng.choice(sorted(NUMERIC_ONLY) if type_error else ALL_FUNS)
     level = level or ("calc" if f == "rank" else rng.choice(["ds", "ds", "calc"]))
     if f == "rank" and level == "ds":
         return None
     mt = dict(sh.ms)
     inv: Dict[str, Any] = {"level": level, "f": f}
     if level == "ds":
-        if f in NUMERIC_ONLY and not all(t in NUMERIC for t in mt.values()):
+        if f in NUMERIC_ONLY and all(t in NUMERIC for t in mt.values()) == type_error:
             return None
-        if f == "count" and len(sh.ms) > 1:
-            inv["known"] = KNOWN_COUNT_MULTI
         optypes = list(mt.values())
     else:
-        cands = [n for n, t in sh.ms if (t in NUMERIC or f not in NUMERIC_ONLY)]
+        cands = [n for n, t in sh.ms if ((t in NUMERIC) != type_error or f not in NUMERIC_ONLY)]
+        if type_error and f not in NUMERIC_ONLY:
+            return None
         if f == "rank":
             inv["operand"] = None
         else:
@@ -182,7 +182,7 @@ def gen_invocation(rng, sh: G.Shape, fun=None, level=None) -> Optional[dict]:
         part = part or ["Id_1"]
     if f in ("lag", "lead", "rank"):
         win = None
-    inv.update({"part": part, "ord": order, "win": win, "ties": ties, "asc_kw": rng.random() < 0.3})
+    inv.update({"part": part, "ord": order, "win": win, "ties": ties, "asc_kw": rng.random() < 0.3, "type_error": bool(type_error)})
     if f in ("lag", "lead"):
         inv["n"] = rng.choice([0, 1, 1, 1, 2, 3])
         inv["dflt"] = None
@@ -240,12 +240,15 @@ def fun_coq(inv) -> str:
     return COQ_F[f]
 
 
-def inv_coq(inv, rename: Optional[List[Tuple[str, str]]] = None, dvar="D") -> str:
+def inv_coq(inv, sh: G.Shape, rename: Optional[List[Tuple[str, str]]] = None, dvar="D") -> str:
+    """the declared types reach the model only as `is this component Integer/Number` flags of the typed entry points"""
+    b = lambda t: "true" if t in NUMERIC else "false"  # noqa: E731
     if inv["level"] == "ds":
-        e = f"(d_analytic {fun_coq(inv)} {spec_coq(inv)} {dvar})"
+        e = f"(d_analytic_t {coq_list([b(t) for _, t in sh.ms])} {fun_coq(inv)} {spec_coq(inv)} {dvar})"
     else:
         op = coq_string(inv["operand"] or "")
-        e = f"(d_calc_analytic {dvar} {coq_string(inv['target'])} {fun_coq(inv)} {spec_coq(inv)} {op})"
+        opn = b(dict(sh.ms).get(inv["operand"], "Integer")) if inv["operand"] else "true"
+        e = f"(d_calc_analytic_t {opn} {dvar} {coq_string(inv['target'])} {fun_coq(inv)} {spec_coq(inv)} {op})"
     if rename:
         rl = coq_list([f"({coq_string(a)}, {coq_string(b)})" for a, b in rename])
         e = f"(bind {e} (fun d0 => Ok (d_rename d0 {rl})))"
@@ -369,6 +372,22 @@ def job_rows(d):
     return {"ids": [list(x) for x in d["shape"].ids], "ms": [list(x) for x in d["shape"].ms], "rows": d["rows"]}
 
 
+def make_type_error_group(rng, n_inv):
+    """numeric-only functions over String/Boolean operands; every statement is expected to raise Semantic 1-1-1-1"""
+    d = gen_dataset(rng, nrows=rng.choice([0, 3, 6]), measure_types=["String", "Boolean", "Integer"])
+    if all(t in NUMERIC for _, t in d["shape"].ms):
+        d["shape"].ms[0] = (d["shape"].ms[0][0], "String")
+        d["rows"] = [(k, [gen_value(rng, "String", 0.25)] + list(m[1:])) for k, m in d["rows"]]
+    invs = []
+    for _ in range(n_inv * 8):
+        inv = gen_invocation(rng, d["shape"], type_error=True)
+        if inv is not None:
+            invs.append(inv)
+        if len(invs) >= n_inv:
+            break
+    return {"ds": d, "invs": invs, "perm": list(reversed(range(len(d["rows"]))))}
+
+
 def make_group(rng, n_inv, fixed=None, nrows=None, measure_types=None):
     """one dataset + n_inv invocations; `fixed` = list of (fun, level) to force"""
     d = gen_dataset(rng, nrows=nrows, measure_types=measure_types)
@@ -411,7 +430,7 @@ def group_coq(g, renames) -> str:
     rows = coq_list([V.to_row(k, [t for _, t in sh.ids], m, [t for _, t in sh.ms]) for k, m in d["rows"]])
     dterm = f"(mkD {coq_list([coq_string(n) for n, _ in sh.ids])} {coq_list([coq_string(n) for n, _ in sh.ms])} {rows})"
     # every case: (the theorems' decidable hypothesis total_order evaluated on this very input, the model's result)
-    return f"(let D := {dterm} in {coq_list(['(total_order D ' + spec_coq(inv) + ', ' + inv_coq(inv, ren) + ')' for inv, ren in zip(g['invs'], renames)])})"
+    return f"(let D := {dterm} in {coq_list(['(total_order D ' + spec_coq(inv) + ', ' + inv_coq(inv, sh, ren) + ')' for inv, ren in zip(g['invs'], renames)])})"
 
 
 def eval_groups(groups, renames_list, tag):
